@@ -179,13 +179,23 @@ def provider_order(am):
     return sorted(ps, key=key)
 
 
+_KW = {"and", "or", "not", "True", "False", "None"}
+
+
+def entry_names(entry):
+    """Names used by a cond/unless entry (a plain name or a boolean expression)."""
+    import re
+
+    return [n for n in re.findall(r"[A-Za-z_]\w*", entry) if n not in _KW]
+
+
 def expected_group(am, t, event, group):
     """Set of (provider, name) that must run for `group` of transition `t` triggered by `event`."""
     names = []
     if group == "validators":
         names = list(t.get("validators", []))
     elif group == "cond":
-        names = list(t.get("cond", [])) + list(t.get("unless", []))
+        names = [n for e in list(t.get("cond", [])) + list(t.get("unless", [])) for n in entry_names(e)]
     elif group == "before":
         names = ["before_transition"] + list(t.get("before", [])) + [f"before_{event}"]
     elif group == "exit":
